@@ -280,7 +280,7 @@ impl<'a> Exec<'a> {
             return;
         }
         lock(&self.w).probe = true;
-        lock(&self.w).ev.push(Ev::Note("quiescent: nothing is blocked, nobody holds a wake-up; probe poll".into()));
+        lock(&self.w).ev.push(Ev::Note(Txt::S("quiescent: nothing is blocked, nobody holds a wake-up; probe poll")));
         let before = lock(&self.w).progress;
         let evlen = lock(&self.w).ev.len();
         self.poll_router();
